@@ -31,4 +31,9 @@ func main() {
 	}
 	must(os.MkdirAll(*outDir, 0o755))
 	genKeywords()
+	info := loadAst()
+	genSchema(info)
+	genPosSpec(info)
+	genPosImpl(info)
+	genWalkImpl(info)
 }
